@@ -233,7 +233,7 @@ def gen_history(rng, case, nops, allow=("commit", "checkout", "status", "push", 
     return case
 
 
-def pipeline_project(rng, cid, n, cyclic=False, tier="quick", all_edges=None):
+def pipeline_project(rng, cid, n, cyclic=False, tier="quick", all_edges=None, sink=False):
     """n stages with vcmd commands; edges j->i (i consumes an output of j). Returns the case and the
     edge list. Outputs: file out/o<i>.txt or directory out/d<i> (vcmd writes f and sub/g into it)."""
     init = []
@@ -297,6 +297,18 @@ def pipeline_project(rng, cid, n, cyclic=False, tier="quick", all_edges=None):
         if ins:
             st["in"] = ins
         stages.append((names[i], st))
+    if sink and n >= 1:
+        # a leaf stage that has nothing to cache itself: a command with inputs and no outputs, or only a skip-cache output
+        src = rng.sample(range(n), min(n, rng.choice([1, 2])))
+        ins = [(outpath[j], "d" if kinds[j] == "dir" else "") for j in src]
+        args = b" ".join(outpath[j] for j in src)
+        if rng.random() < 0.5:
+            st = dict(cmd=b"vprobe S%d -- " % n + args, wd=b".", out=[], **{"in": ins})
+        else:
+            st = dict(cmd=b"vcmd S%d out/report%d.txt -- " % (n, n) + args, wd=b".", out=[(b"out/report%d.txt" % n, "s")], **{"in": ins})
+        stages.append((b"st%d.yaml" % n, st))
+        edges = edges + [(j, n) for j in src]
+        kinds = kinds + ["sink"]
     case = dict(id=cid, init=init, stages=stages, ops=[], cache=rng.choice(["rel", "rel", "abs"]))
     case["edges"] = edges
     case["kinds"] = kinds
